@@ -4,6 +4,7 @@ import (
 	"fmt"
 	"hash/fnv"
 	"math/rand"
+	"os"
 	"runtime"
 	"sort"
 	"strings"
@@ -41,6 +42,9 @@ type parked struct {
 	owner string
 	ch    chan struct{}
 }
+
+// burstMode: the runner asks for task bursts (parallel passes only; VERIF_BURST=1).
+var burstMode = os.Getenv("VERIF_BURST") != ""
 
 // Kernel owns the tape, the log and the loop of one simulated run.
 type Kernel struct {
@@ -455,7 +459,7 @@ func (k *Kernel) collect() []Action {
 			}})
 		}
 	}
-	if runtime.GOMAXPROCS(0) > 1 {
+	if burstMode && runtime.GOMAXPROCS(0) > 1 {
 		// a parallel pass (the child runs with several processors): releasing every idle
 		// task at once makes their operations really overlap, which is the only way to put
 		// two callers inside a stretch of driver code that has no yield point
